@@ -77,6 +77,71 @@ Proof.
     + intros l' El. injection El as <-. split; [lia|]. split; [exact Hlen|exact Hc].
 Qed.
 
+(* partial consumption *)
+Lemma take_lim_bound {A} (s : stream A) (n : nat) : forall k i l e p,
+  (i <= n)%nat -> take_lim (Z.of_nat n) s k i = (l, e, p) ->
+  (p <= k)%nat /\ (i + p <= S n)%nat /\
+  (e = Raised <-> (n < i + k)%nat /\ (forall j, (i <= j <= n)%nat -> s j <> None)) /\
+  ((forall j, (i <= j)%nat -> (j < Nat.min (i + k) (S n))%nat -> s j <> None) -> (i + p)%nat = Nat.min (i + k) (S n)) /\
+  (length l <= p)%nat /\ (i + length l <= n)%nat /\
+  (forall j, (j < length l)%nat -> s (i + j)%nat = nth_error l j).
+Proof.
+  induction k as [|k IH]; intros i l e p Hi H.
+  - cbn in H. injection H as <- <- <-. cbn [length].
+    repeat split; intros; try lia; try congruence.
+  - cbn [take_lim] in H. unfold lim_next in H. rewrite over_nat in H.
+    destruct (s i) as [x|] eqn:Es.
+    + destruct (Nat.leb_spec n i) as [Hle|Hlt].
+      * assert (i = n) by lia. subst i. injection H as <- <- <-. cbn [length].
+        repeat split; intros; try lia; try congruence.
+        assert (j = n) by lia. subst j. congruence.
+      * destruct (take_lim (Z.of_nat n) s k (S i)) as [[l' e'] p'] eqn:Et.
+        injection H as <- <- <-.
+        destruct (IH (S i) l' e' p' ltac:(lia) Et) as (H1 & H2 & H3 & H4 & H5 & H6 & H7).
+        cbn [length]. split; [lia|]. split; [lia|]. split; [|split; [|split; [lia|split; [lia|]]]].
+        -- rewrite H3. split.
+           ++ intros [Ha Hb]. split; [lia|]. intros j Hj. destruct (Nat.eq_dec j i) as [->|]; [congruence|]. apply Hb. lia.
+           ++ intros [Ha Hb]. split; [lia|]. intros j Hj. apply Hb. lia.
+        -- intros Hall. assert (Hs : (S i + p')%nat = Nat.min (S i + k) (S n)).
+           { apply H4. intros j Hj1 Hj2. apply Hall; lia. }
+           lia.
+        -- intros j Hj. destruct j as [|j]; cbn [nth_error].
+           ++ rewrite Nat.add_0_r. exact Es.
+           ++ replace (i + S j)%nat with (S i + j)%nat by lia. apply H7. lia.
+    + injection H as <- <- <-. cbn [length]. repeat split; intros; try lia; try congruence.
+      * destruct H as [Ha Hb]. exfalso. apply (Hb i); [lia|exact Es].
+      * exfalso. apply (H i); [lia|lia|exact Es].
+Qed.
+
+Lemma limit_prefix {A} (s : stream A) (N : Z) (k : nat) : 0 <= N ->
+  let '(l, e, p) := take_lim N s k O in
+  let n := Z.to_nat N in
+  (p <= Nat.min k (S n))%nat /\
+  (e = Raised <-> (n < k)%nat /\ more_than s N) /\
+  ((forall j, (j < Nat.min k (S n))%nat -> s j <> None) -> p = Nat.min k (S n)) /\
+  (length l <= Nat.min k n)%nat /\
+  (forall j, (j < length l)%nat -> s j = nth_error l j).
+Proof.
+  intro HN. remember (Z.to_nat N) as n eqn:Hn. assert (EN : N = Z.of_nat n) by lia. clear Hn. subst N.
+  destruct (take_lim (Z.of_nat n) s k O) as [[l e] p] eqn:Et.
+  destruct (take_lim_bound s n k O l e p ltac:(lia) Et) as (H1 & H2 & H3 & H4 & H5 & H6 & H7).
+  cbv beta iota zeta. split; [lia|]. split; [|split; [|split; [lia|]]].
+  - rewrite H3. cbn [Nat.add]. split.
+    + intros [Ha Hb]. split; [exact Ha|]. intros j Hj. apply Hb. lia.
+    + intros [Ha Hb]. split; [exact Ha|]. intros j Hj. apply Hb. lia.
+  - intros Hall. cbn [Nat.add] in H4. apply H4. intros j _ Hj. apply Hall. exact Hj.
+  - intros j Hj. apply (H7 j Hj).
+Qed.
+
+Lemma limit_prefix_negative {A} (s : stream A) (N : Z) : N < 0 ->
+  forall k i, snd (fst (take_lim N s k i)) <> Raised.
+Proof.
+  intro HN. induction k as [|k IH]; intro i; [cbn; discriminate|].
+  cbn [take_lim]. unfold lim_next. rewrite (over_neg N i HN).
+  destruct (s i); [|cbn; discriminate].
+  specialize (IH (S i)). destruct (take_lim N s k (S i)) as [[l e] p]. exact IH.
+Qed.
+
 Lemma limit_negative_identity {A} (s : stream A) (N : Z) : N < 0 ->
   forall fuel i, drain N s fuel i = drain_raw s fuel i.
 Proof.
